@@ -342,8 +342,12 @@ NPROBE = 1600 if TIER == "quick" else 4000
 probes = so3_probes(NPROBE)
 
 for method in METHODS:
-    for res in ORES:
+    # 10 degrees: an EVEN number of steps (36), the only case in which the "quaternion" grid contains both q and -q
+    # for rotations by 180 degrees (low-order groups keep them in the zone)
+    for res in ORES + ([10.0] if method == "quaternion" else []):
         for name, G in PROPER11 + (EXTRA_SETTINGS if TIER != "quick" else []):
+            if res == 10.0 and TIER == "quick" and name not in ("1", "2", "3"):
+                continue
             rot = get_sample_fundamental(res, point_group=G, method=method)
             q = rot.data.reshape(-1, 4)
             g = G.data.reshape(-1, 4)
